@@ -412,3 +412,33 @@ def fill(claim, na):
         "Trusted: numpy.linalg.svd returns (U, S, Vh); align_optimal puts its first sequence in trace column 0.",
         "DESIGN.md section 2, C16",
     )
+
+
+# clauses added by the fourth round of independent seeded changes and by red team C (appended to the level text)
+ADDENDA = {
+    "C01": "Round 4: add_annotation keeps / widens the dtype of an existing annotation as documented; a flag carried through a loop is "
+           "accumulated, not overwritten by the last iteration; the cached array length is written wherever atoms are removed and a bond "
+           "list of another length is refused (rules shared with C17).",
+    "C03": "The codon digit functions are compared as whole functions with the radix computation they have to be (literal loops written "
+           "out, both sides summarised, canonical forms compared: sa/equiv.py); decode refuses exactly code < 0 and code >= len(symbols) "
+           "(canonical guards of the summarised function); alphabets are compared by value.",
+    "C06": "Round 4: container equality compares the key sets of both sides; a constructor leaves the mapping it is given unchanged.",
+    "C07": "Round 4: memoised derived state has a writer that refreshes it; the coordinate width guard is evaluated in both atom-id modes.",
+    "C08": "The 'minus infinity' sentinel is composed from the function's inputs (gap_penalty[0], gap_penalty[1], the matrix minimum) by a "
+           "backward slice, so the statements preparing its operands are part of the check.",
+    "C09": "The banded sentinel is composed from the function's inputs (the penalty dispatch and the transposed matrix included) by a "
+           "backward slice.",
+    "C11": "Round 4: '=' / 'X' are decided on the rows given by reference_index / segment_index of the alignment the trace columns come "
+           "from (value composed from the function's inputs); a FASTA entry appended through the fast path records its own line range; "
+           "alphabets are compared by value, not identity.",
+    "C12": "Round 4: wrap_string is exactly the concatenation of the width-slices of its input; GFF numbers are written with their full "
+           "text (no lossy format specification).",
+    "C13": "Round 4: the IUPAC complement table is checked symbol by symbol against the set semantics of the codes (shared with C03).",
+    "C14": "Conversions between C number types stay visible to the rules (`<int>sq_dist` is not `sq_dist`); the squared radii are composed "
+           "from the function's inputs through _prepare_vectorization; facts are killed by writes through pointer aliases.",
+    "C17": "Round 4: the cached array length follows every removal of atoms; a bond list of another length is refused on assignment.",
+    "C18": "Round 4: MOLFile.set_structure validates the new connection table before it touches the old lines (a refusal leaves the file "
+           "as it was); to_mol works on a copy of the caller's bond list.",
+    "C20": "Round 4: constructors refuse (version check) before the base class acquires temporary files; program output is read through "
+           "communicate() only; dump applications collect each result-file pattern separately.",
+}
